@@ -38,7 +38,7 @@ class SimDevice:
     # ------------------------------------------------------------ helpers
     def _toc_item(self, entry, param):
         if param:
-            tb = entry['type'] | (0x40 if entry.get('ro') else 0) | (0x10 if entry.get('extended') else 0)
+            tb = entry['type'] | (0x40 if entry.get('ro') else 0) | (0x10 if entry.get('extended') else 0) | (0x20 if entry.get('core') else 0)
         else:
             tb = entry['type']
         return bytes([tb]) + entry['group'].encode('ISO-8859-1') + b'\0' + entry['name'].encode('ISO-8859-1') + b'\0'
@@ -286,6 +286,7 @@ def _make_simlink_class():
             self.seq = 0
             self.tx = []            # (time, port, channel, bytes, closed?)
             self.rx_log = []
+            self.last_due = 0.0
             self.order = []         # ('tx'|'rx', index into tx / rx_log) in the order things happened
             self.wakeup = dsched._Waitable()
             self.exchanged = 0
@@ -342,7 +343,10 @@ def _make_simlink_class():
             s.yield_point()
             w = self.world
             data = bytes(pk.data)
-            self.tx.append((s.now, pk.port, pk.channel, data, closed_at_entry))
+            # like the real drivers: what goes on the wire is the header attribute, not the port/channel properties
+            hdr = pk.header
+            port, channel = (hdr & 0xF0) >> 4, hdr & 0x03
+            self.tx.append((s.now, port, channel, data, closed_at_entry))
             self.order.append(('tx', len(self.tx) - 1))
             if self.closed:
                 return
@@ -356,9 +360,9 @@ def _make_simlink_class():
             w.req_index += 1
             if i in w.net.lose_req:
                 return
-            reps = w.device.handle(pk.port, pk.channel, data, s.now)
+            reps = w.device.handle(port, channel, data, s.now)
             if w.reply_filter is not None:
-                for rep, delay, guard in w.reply_filter(self, (pk.port, pk.channel, data), reps):
+                for rep, delay, guard in w.reply_filter(self, (port, channel, data), reps):
                     self.deliver(rep, delay, guard)
             else:
                 for rep in reps:
@@ -371,10 +375,15 @@ def _make_simlink_class():
             w.reply_index += 1
             if j in w.net.lose_rep:
                 return
+            due = None
             if delay is None:
+                # the link's own latency varies from reply to reply but a link never reorders: a reply is not delivered
+                # before one the device sent earlier (explicit delays model replies the device sends later, e.g. to a resend)
                 delay = w.net.delays[j % len(w.net.delays)] if w.net.delays else w.net.default_delay
+                due = max(s.now + delay, self.last_due)
+                self.last_due = due
             self.seq += 1
-            heapq.heappush(self.pending, (s.now + delay, self.seq, rep, guard))
+            heapq.heappush(self.pending, (due if due is not None else s.now + delay, self.seq, rep, guard))
             while self.wakeup.waiters:
                 s.wake(self.wakeup.waiters.popleft())
 
